@@ -94,19 +94,35 @@ def mergeFieldSets_opt_perm_Statement : Prop :=
     SameSets sets₁ sets₂ → mergeFieldSets c e sets₁ = .ok r₁ → mergeFieldSets c e sets₂ = .ok r₂ →
     ∀ k t₁ t₂, (k, t₁) ∈ r₁ → (k, t₂) ∈ r₂ → t₁.isOpt = t₂.isOpt
 
-/-- **Order-dependence witness** (generator.py:143-156): `{"a": int}` then `{"a": Optional[int]}`
-    gives `a: int`; the other order gives `a: Optional[int]`. -/
-theorem order_witness :
-    mergeFieldSets cEx eEx [[("a", .int)], [("a", .opt .int)]] = .ok [("a", .int)] ∧
+/-- comparison environment with one level of `==` (enough when the top-level classes differ; keeps `simp` cheap) -/
+def eEx1 : EqEnv := ⟨StrOracle.default, fun i => "Model#" ++ i, fun _ => none, 1⟩
+
+/-- **NEW behaviour** (repaired generator.py:155; this pair was the old order-dependence witness, the first
+    order used to give `a: int`): `{"a": int}` and `{"a": Optional[int]}` merge to `a: Optional[int]` in both
+    orders. -/
+example : mergeFieldSets cEx eEx [[("a", .int)], [("a", .opt .int)]] = .ok [("a", .opt .int)] ∧
     mergeFieldSets cEx eEx [[("a", .opt .int)], [("a", .int)]] = .ok [("a", .opt .int)] :=
   ⟨rfl, rfl⟩
 
-/-- **C07.2 is false as stated.** -/
+/-- **Order-dependence witness** (generator.py:143-160, still there after the repair): `{"a": int}` then
+    `{"a": Optional[str]}` gives `a: Union[Optional[str], int]` (not a `DOptional`); the other order gives
+    `a: Optional[Union[int, str]]`.  (`optimize_type` maps both to `Optional[Union[int, str]]`; the lax
+    form `mergeFieldSets_hasOpt_perm` is order-independent.) -/
+theorem order_witness :
+    mergeFieldSets cEx eEx1 [[("a", .int)], [("a", .opt .str)]] = .ok [("a", .union [.opt .str, .int])] ∧
+    mergeFieldSets cEx eEx1 [[("a", .opt .str)], [("a", .int)]] = .ok [("a", .opt (.union [.int, .str]))] := by
+  constructor <;>
+  simp [mergeFieldSets, mergeFieldSets.go, mergeStep, mergeOne, Fields.get?, Fields.set, Fields.keys,
+    Fields.has, Ty.isOpt, EqEnv.eq, eEx1, pyEq, bind, Except.bind, pure, Except.pure, Ty.unionMembers,
+    mkUnionMembers, flattenUnion, handleType, hashStr, Ty.isStr]
+
+/-- **C07.2 is still false as stated.** -/
 theorem mergeFieldSets_opt_perm_false : ¬ mergeFieldSets_opt_perm_Statement := by
   intro h
-  have := h cEx eEx _ _ _ _
-    (SameSets.of_perm (List.Perm.swap [("a", Ty.opt .int)] [("a", Ty.int)] []))
-    order_witness.1 order_witness.2 "a" .int (.opt .int) (by simp) (by simp)
+  have := h cEx eEx1 _ _ _ _
+    (SameSets.of_perm (List.Perm.swap [("a", Ty.opt .str)] [("a", Ty.int)] []))
+    order_witness.1 order_witness.2 "a" (.union [.opt .str, .int]) (.opt (.union [.int, .str]))
+    (by simp) (by simp)
   simp [Ty.isOpt] at this
 
 /-- **`mergeFieldSets_opt_perm_partial`**: on opt-free sets (no `DOptional` at the top or among the
